@@ -324,15 +324,36 @@ def run(tier: str, rng: random.Random, proof_ok: bool) -> dict:
         (("NTupleV", [AINT, AINT], None, Some(("CoTupleOrList",))), [("VList", [G.I(2), G.I(4)]), ("VTuple", [G.I(3), G.I(2)])]),
         (("SetV", AINT, [], [("APred", N(0))], None), [("VSet", [G.I(2)]), ("VSet", [G.I(3), G.I(4)])]),
     ]
-    for vt, alpha in inter:
+    # recursive definitions: overlapping validations enter and leave the same Lazy in every order
+    LZ_NODE = ("DictAnyV", [P(G.S("v"), AINT), P(G.S("next"), ("OptionalV", ("NoneV", None), ("LazyV", N(0), True)))], None, None, False)
+    node = lambda *vs: (lambda f: f(f, list(vs)))(lambda f, l: ("VDict", [P(G.S("v"), G.I(l[0]))] + ([P(G.S("next"), f(f, l[1:]))] if len(l) > 1 else [])))
+    inter_lazy = [(("LazyV", N(0), True), [LZ_NODE], [node(2), node(2, 4), node(3, -1, 2)]),
+                  (("ListV", ("LazyV", N(0), False), [], [("APred", N(0))], None), [AINT], [("VList", [G.I(2)]), ("VList", [G.I(3), G.I(-1)])])]
+    for vt, lazy_, alpha in [(a_, [], c_) for a_, c_ in inter] + inter_lazy:
         for k in (2, 3):
             for xts in itertools.product(alpha, repeat=k):
                 if k == 3 and rng.random() < (0.7 if tier == "quick" else 0.0):
                     continue
                 n_inter += 1
-                r, c = check_interleavings(vt, [], list(xts), 600 if tier == "quick" else 30000)
+                amb0 = ambient()
+                try:
+                    r, c = check_interleavings(vt, lazy_, list(xts), 600 if tier == "quick" else 30000)
+                except HarnessError:
+                    continue
+                amb1 = ambient()
                 n_sched += c
-                report(r, {"v": to_json(vt), "inputs": [to_json(x) for x in xts], "interleaving": True})
+                report(r, {"v": to_json(vt), "lazy": to_json(lazy_), "inputs": [to_json(x) for x in xts], "interleaving": True})
+                if amb1 != amb0:
+                    import sys as _sys
+                    diff = {k_: (amb0[k_], amb1[k_]) for k_ in amb0 if amb0[k_] != amb1[k_]}
+                    _sys.setrecursionlimit(amb0["recursionlimit"])
+                    report({"signature": "C13:ambient-state-modified",
+                            "what": f"after overlapping validations of {[to_py(x, None) for x in xts]!r} on one instance, process / thread state that later validations read has changed: {diff!r}"},
+                           {"v": to_json(vt), "lazy": to_json(lazy_), "inputs": [to_json(x) for x in xts], "interleaving": True})
+    from .C20 import several_event_loops
+    report(several_event_loops("C13"), {"event_loops": True})
+    from .C08 import repeated_calls
+    report(repeated_calls("C13"), {"repeated_calls": True})
     # (c) threads (sampled)
     for vt, alpha in fixed[:6]:
         n_thr += 1
@@ -356,9 +377,22 @@ def replay(path: str) -> int:
     if not rc:
         print("no input in replay file:", j.get("what"))
         return 1
+    if rc.get("event_loops"):
+        from .C20 import several_event_loops
+        r = several_event_loops("C13")
+        print("violation:" if r else "property holds under several event loops", r["what"] if r else "")
+        return 1 if r else 0
+    if rc.get("repeated_calls"):
+        from .C08 import repeated_calls
+        r = repeated_calls("C13")
+        print("violation:" if r else "property holds for repeated calls of decorated functions", r["what"] if r else "")
+        return 1 if r else 0
     vt, lazy = from_json(rc["v"]), from_json(rc.get("lazy", []))
     if rc.get("interleaving"):
+        amb0 = ambient()
         r, _ = check_interleavings(vt, lazy, [from_json(x) for x in rc["inputs"]], 100000)
+        if r is None and ambient() != amb0:
+            r = {"what": f"process / thread state changed: {ambient()!r} (was {amb0!r})"}
     elif rc.get("threads"):
         r = check_threads(vt, lazy, [from_json(x) for x in rc["inputs"]], 3000)
     else:
